@@ -3,7 +3,7 @@
 
 Atomic-step relation of the worker pool, one step per channel operation / lock-protected
 region. `repaired = true` is the code with `/verif/fixes/C26-worker-exits-on-error.patch`
-applied (a worker that sees the shared error does `sg.Done(); continue`); `repaired = false`
+applied — the code of /repo since commit 8459107 — (a worker that sees the shared error does `sg.Done(); continue`); `repaired = false`
 is the original `sg.Done(); return` (the worker goroutine exits for good).
 
 Goroutines: the scheduler started by `processQueue` (`pq`), `workers` worker goroutines
